@@ -184,6 +184,18 @@ func runC17(tier string, seed uint64) {
 			do(h, Req{Method: "PUT", Path: "/" + gone + "/copied", Body: []byte{}, Header: [][2]string{{"X-Amz-Copy-Source", "/abc/nothing"}}})
 			stat("deleted-bucket-addressed-" + kind)
 		}
+		// buckets come to exist through create-bucket only: uploads, copies and multipart uploads whose keys spell
+		// paths out of their bucket (into the directory the fs backend keeps its buckets in) make none
+		for _, hk := range []string{"../zzz-sideways/x", "../zzz-sideways2", "../../zzz-up/x", "./../zzz-dot/x", "a/../../zzz-mid/x", "..%2Fzzz-esc/x", "../Bad_Name/x", "..\\zzz-back/x"} {
+			do(h, Req{Method: "PUT", Path: "/abc/" + hk, Body: []byte("x")})
+			do(h, Req{Method: "PUT", Path: "/abc/" + hk + ".copy", Body: []byte{}, Header: [][2]string{{"X-Amz-Copy-Source", "/abc/" + hk}}})
+			if ir := do(h, Req{Method: "POST", Path: "/abc/" + hk + ".mp?uploads", Body: []byte{}}); len(xmlAll(string(ir.Body), "UploadId")) == 1 {
+				id := xmlAll(string(ir.Body), "UploadId")[0]
+				pr := do(h, Req{Method: "PUT", Path: "/abc/" + hk + ".mp?uploadId=" + id + "&partNumber=1", Body: []byte("part")})
+				do(h, Req{Method: "POST", Path: "/abc/" + hk + ".mp?uploadId=" + id, Body: []byte("<CompleteMultipartUpload><Part><PartNumber>1</PartNumber><ETag>" + pr.Header.Get("ETag") + "</ETag></Part></CompleteMultipartUpload>")})
+			}
+			stat("hostile-key-upload-" + kind)
+		}
 		list()
 		st.Close()
 	}
